@@ -593,6 +593,70 @@ PROPS["C01"]["rule"] += ("; handle (adversarial replies): upstream replies whose
                          "listeners: no crash, exactly one response, compared with the model")
 
 
+def refusal_gen(rng, tier):
+    """a client that runs into the client limiter (rate 1/s, small burst): the first query is answered, the following ones
+    — ordinary, with OPT, with several questions, with long names — are refused; every REFUSED response must be exactly
+    the model's [refuse] output (one question echoed at most, id / opcode / RD of the query, correct frame)"""
+    out = []
+    for i in range(budget(tier, 24, 400)):
+        # (the environment's readiness probes open one tcp and one gnet connection from 127.0.0.1: 6 tokens are gone;
+        # an answered query costs 1 + 3, a refused one nothing: about six answers, then refusals)
+        # (UDP only: on the stream and DoH listeners every harness query opens a connection of its own, and a refused
+        # CONNECTION is closed without a response — the per-query refusals of those listeners are C13's / C15 admit's)
+        l = "udp"
+        cfg = "U=u;E=0;S=-;R=-:0:0:0;L=1:%d;X=%d" % (rng.choice([28, 30, 33]), i)
+        name = gens.raw_name([b"rf%d" % i, rng.choice(VOCAB), b"test"])
+        question = name + b"\0" + struct.pack(">HH", 1, 1)
+        reply = struct.pack(">HHHHHH", 0, 0x8180, 1, 1, 0, 0) + question + b"\xc0\x0c" + struct.pack(">HHIH", 1, 1, 60, 4) + bytes([10, 0, 0, 9])
+        qs = [struct.pack(">HHHHHH", rng.randrange(65536), 0x0100, 1, 0, 0, 0) + question]
+        for _ in range(rng.choice([10, 11, 12])):
+            k = rng.random()
+            if k < 0.3:
+                q = struct.pack(">HHHHHH", rng.randrange(65536), 0x0100, 1, 0, 0, 1) + question + opt_rr(rng, size=rng.choice([512, 1232, 4096]))
+            elif k < 0.6:
+                nq = rng.choice([2, 3, 8])
+                qq = b"".join(gens.raw_name([bytes(rng.choice(b"abcdefgh") for _ in range(rng.choice([5, 40, 63]))), rng.choice(VOCAB)]) +
+                              b"\0" + struct.pack(">HH", rng.choice([1, 28, 16]), 1) for _ in range(nq))
+                q = struct.pack(">HHHHHH", rng.randrange(65536), rng.choice([0x0100, 0x0000, 0x2900]), nq, 0, 0, 0) + qq
+            else:
+                q = struct.pack(">HHHHHH", rng.randrange(65536), 0x0100, 1, 0, 0, 0) + question
+            qs.append(q)
+        out.append("rf%d cfg=%s l=%s qs=%s up=reply:%s" % (i, cfg, l, ";".join(gens.hx(q) for q in qs), gens.hx(reply)))
+    return out
+
+
+def refusal_oracle(line, res):
+    f = gens.fields(res)
+    if not res.startswith("n="):
+        return None
+    n = int(f.get("n", "0") or 0)
+    for i in range(1, n + 1):
+        st = f.get("r%d" % i, "-:-").split(":")[0]
+        if st not in ("ok", "http-503"):
+            return "query %d of a rate-limited client got neither a DNS response nor 503 (%s)" % (i, st)
+    return None
+
+
+def refusal_respec(line, res):
+    if not res.startswith("n="):
+        return None
+    return line + " " + " ".join(p for p in res.split() if p.startswith("r"))
+
+
+def refusal_kind():
+    return dict(name="refusal", gen=refusal_gen, oracle=refusal_oracle, model=False, respec=refusal_respec,
+                respec_kind="refusalspec", respec_all=True, timeout=600, shards=2,
+                nontrivial=lambda l, r: "8185" in r or "8105" in r or "http-503" in r,
+                classify=lambda l, r: gens.fields(l).get("l", "?") + ("/refused" if ("http-503" in r or ":" in r and any(
+                    p.split(":")[1][4:8] in ("8185", "8105", "8585") for p in r.split() if p.startswith("r") and ":" in p and len(p.split(":")[1]) > 8)) else "/none"))
+
+
+PROPS["C15"]["kinds"].append(refusal_kind())
+PROPS["C15"]["rule"] += ("; refusal: a client running into the limiter through the real listeners; every REFUSED response compared octet "
+                         "for octet with the model's refuse (C09_refusal_small), DoH: 503")
+PROPS["C09"]["kinds"].append(refusal_kind())
+
+
 def frame_gen(rng, tier):
     """C13: the 2-octet prefix of responses at and beyond the 65535-octet limit, and of large relayed replies, on every
     stream listener (tcp, gnet, tls, quic) — the handle kind restricted to the frame-size boundary"""
